@@ -195,11 +195,13 @@ script fail (nothing is written). No other code checks the range of PrimaryIndex
 transactions passes with any value. -/
 def primaryOK (env : Env L) (b : Block) : Bool := b.txs.isEmpty || decide (b.hdr.primary < env.nvals)
 
-/-- storeBlock as far as acceptance is concerned: execution, then the check of the next known
-header's PrevStateRoot, then the commit. The check comes after stateRoot.AddMPTBatch, which has
-already changed the in-memory trie in place: when it fails nothing is committed, but the ledger the
-node works with is no longer the one it had (`spoil`; DESIGN §6 item 11, known findings
-failed-store-corrupts-trie and failed-store-corrupts-transfer-log). -/
+/-- storeBlock as far as acceptance is concerned: the PrimaryIndex test of the persisting script, execution,
+then the check of the next known header's PrevStateRoot, then the commit. The check comes after
+stateRoot.AddMPTBatch, which works on the in-memory trie; on every error path after it storeBlock now
+calls stateroot.Module.DropMPTBatch (the trie is reloaded from the current local root) and the transfer
+logs are copied before they are appended to (b358bb1): a failing storeBlock leaves the node as it was.
+(`Env.spoil` described what the execution left behind before these two fixes; it is no longer used by
+the model - Props/C06Old.lean keeps the old behaviour as a regression example.) -/
 def storeBlock (env : Env L) (s : Node L) (b : Block) : Node L × Option Err :=
   if !primaryOK env b then (s, some .store)
   else
@@ -207,7 +209,7 @@ def storeBlock (env : Env L) (s : Node L) (b : Block) : Node L × Option Err :=
     | none => (s, some .store)
     | some l' =>
       if nextHeaderOK env s b.hdr.index l' then (commit env s b l', none)
-      else ({ s with ledger := env.spoil s.ledger b }, some .store)
+      else (s, some .store)
 
 /-- AddBlock's header step: the header is either the next one (verify and record it) or already
 known. Then its hash is compared with the recorded one and, unless the witness is the recorded
